@@ -247,7 +247,8 @@ def adc_case(draw, tier, mega=False):
     shape = draw(gen.mega_shape()) if mega else draw(gen.shape2(1, 10))
     k = draw(st.integers(0, 2**31 - 1))
     rng = np.random.default_rng(k)
-    sat = draw(st.sampled_from([None, None, 500, 4000.5, 65000]))
+    # (a capacity of 0 is a legitimate value: every positive count is clipped to 0)
+    sat = draw(st.sampled_from([None, None, 500, 4000.5, 65000, 500, 4000.5, 0, 0.0]))
     top = 1.6 * (sat or 3000)
     frame_kind = draw(st.sampled_from(["float", "float_neg", "int", "int_neg", "const", "int_large"]))
     if frame_kind == "float":
@@ -262,6 +263,13 @@ def adc_case(draw, tier, mega=False):
         img = rng.integers(-int(0.3 * top), int(top), size=shape)
     else:
         img = np.full(shape, float(sat or 100.0))
+    if frame_kind in ("float", "float_neg") and draw(st.integers(0, 3)) == 0:
+        # dead / unread pixels flagged NaN: digitisation is pixel by pixel, so every other pixel (and the saturation
+        # warning, which is about pixels that exceed the capacity) is unaffected
+        img = img.copy()
+        for _ in range(draw(st.integers(1, 3))):
+            img.flat[draw(st.integers(0, img.size - 1))] = np.nan
+        frame_kind += "+nan"
     form = draw(st.sampled_from(["scalar", "poly", "pixel", "pixel_poly"]))
     order = 1 if form in ("scalar", "pixel") else draw(st.integers(1, 4))
     if form == "scalar":
@@ -312,12 +320,15 @@ def adc(case, ctx):
     sat = case["sat"]
     form, order = case["form"], case["order"]
     gain = case["gain"] if form in ("scalar", "pixel", "pixel_poly") else list(case["gain"])
-    saturates = sat is not None and bool(np.any(img > sat))
+    finite = np.isfinite(np.asarray(img, dtype=float))
+    if not finite.all():
+        img = np.where(finite, img, 0.0)              # the reference is evaluated on the finite pixels only
+    saturates = sat is not None and bool(np.any(img[finite] > sat))
     ctx.tag("gain:" + form, f"order:{order}", "saturated" if saturates else None,
             "negative" if np.any(img < 0) else None, "frame:" + case["frame_kind"], "dtype:" + str(case["dtype"]),
-            "warn" if case["warn"] else None, "sat:none" if sat is None else "sat:set")
+            "warn" if case["warn"] else None, "sat:none" if sat is None else ("sat:0" if sat == 0 else "sat:set"))
     ctx.nontrivial_if(saturates or bool(np.any(img < 0)))
-    frame = gen.relayout(img.copy(), ["C", "F", "strided", "reversed"][int(abs(float(np.sum(img)))) % 4])
+    frame = gen.relayout(np.asarray(case["img"]).copy(), ["C", "F", "strided", "reversed"][int(abs(float(np.sum(img)))) % 4])
     before = frame.copy()
     kw = {}
     if case["dtype"] is not None:
@@ -329,14 +340,14 @@ def adc(case, ctx):
     warned = any("saturat" in str(r.message).lower() for r in rec)
     if warned != (case["warn"] and saturates):
         raise Violation("C16.adc.warning", f"saturation warning emitted={warned}, expected {case['warn'] and saturates}")
-    if not np.array_equal(frame, before) or frame.dtype != before.dtype:
+    if not np.array_equal(frame, before, equal_nan=not finite.all()) or frame.dtype != before.dtype:
         raise Violation("C16.adc.input_mutated", "adc modified the caller's electron frame")
     e = np.minimum(img, sat) if sat is not None else img
     poly = ref_poly(e, gain, form, order)
     exp = np.maximum(np.floor(poly), 0)
     scale = np.maximum(np.abs(poly), 1.0)
-    undecided = np.abs(poly - np.round(poly)) < 1e-9 * scale
-    if undecided.any():
+    undecided = (np.abs(poly - np.round(poly)) < 1e-9 * scale) | ~finite
+    if (undecided & finite).any():
         ctx.tag("rounding_decided_pixels_skipped")
     out = np.asarray(out)
     if out.shape != img.shape:
@@ -362,7 +373,7 @@ def adc(case, ctx):
                         f"adc(gain {form} order {order}, frame {case['frame_kind']}, sat {sat}) at {i}: got "
                         f"{out[i] if i else '?'}, expected floor({float(poly[i]) if i else '?'}) clipped at 0 "
                         f"(electrons {img[i] if i else '?'})")
-    if np.any(np.asarray(out, dtype=float) < 0):
+    if np.any(np.asarray(out, dtype=float)[finite] < 0):
         raise Violation("C16.adc.negative", "negative digital number")
 
 
